@@ -225,7 +225,7 @@ func TestC22_Sequences(t *testing.T) {
 		t.Skip()
 	}
 	rec := ev.New(t, "C22", "sequences", "rapid: 1..12 control-stream messages (11 kinds incl. zero-length bodies; payload sizes 0, tiny, around 32 KiB / 64 KiB / 1 MiB, up to 3 MiB; compressible or noise; message objects freshly built or an earlier object overwritten in place and sent again) through encoder -> bufio 64K -> compressor (none|deflate) -> bufio 64K with random flush points, decoded through the mirrored inbound stack over a lock-step wire with read fragmentation (whole, 1 byte, 1..64, 1..100000, 1-byte-then-whole) and reader/writer interleaving at none/all/random wire writes; "+ruleC22)
-	ev.Check(t, rec, 500, 12000, func(rt *rapid.T) {
+	ev.Check(t, rec, 400, 8000, func(rt *rapid.T) {
 		c := drawSeqCase(rt)
 		v, info := judgeSequence(c)
 		rec.Eval()
@@ -352,7 +352,7 @@ func TestC22_Truncation(t *testing.T) {
 		t.Skip()
 	}
 	rec := ev.New(t, "C22", "truncation", "rapid: a short message sequence is put on the wire (none|deflate), the stream ends after every prefix length (all cuts for streams up to 600 bytes, 300 drawn cuts otherwise): decoded messages are a prefix of the sent ones, the incomplete one yields an error, nothing panics; non-trivial: the cut lies strictly inside the stream")
-	ev.Check(t, rec, 60, 1500, func(rt *rapid.T) {
+	ev.Check(t, rec, 40, 1200, func(rt *rapid.T) {
 		c := &TruncCase{Algorithm: int(rapid.SampledFrom(algorithms).Draw(rt, "algorithm")),
 			FragMode: rapid.SampledFrom([]int{fragWhole, fragOneByte, fragSmall}).Draw(rt, "frag.mode"), FragSeed: rapid.Uint64().Draw(rt, "frag.seed")}
 		n := rapid.IntRange(1, 5).Draw(rt, "messages")
